@@ -776,7 +776,8 @@ class DocutilsRenderer(RendererProtocol):
         node["names"].append(name)
         self.document.note_implicit_target(node, node)
 
-        if level > self.md_config.heading_anchors:
+        if level > (self.md_config.heading_anchors or 0):
+            # note heading_anchors can also be None
             return
 
         # Create an implicit reference slug.
